@@ -133,8 +133,8 @@ func checkLockLeaks(w *World, r *Report, la *lockAnalysis, rule string) {
 // ---------------------------------------------------------------- R05.4a
 
 var assertExceptions = map[string]string{
-	"(*CoreExtension).functionMax | string": "reached only when the preceding scan of the same args slice found every element to be a string (allStrings)",
-	"(*CoreExtension).functionMin | string": "reached only when the preceding scan of the same args slice found every element to be a string (allStrings)",
+	"(*CoreExtension).functionMax | string":            "reached only when the preceding scan of the same args slice found every element to be a string (allStrings)",
+	"(*CoreExtension).functionMin | string":            "reached only when the preceding scan of the same args slice found every element to be a string (allStrings)",
 	"(*RenderContext).DetectFilterChain | *FilterNode": "second pass over the same chain: the first loop of the function established, node by node, that exactly `depth` links are *FilterNode, and the second loop visits the same `depth` links",
 }
 
